@@ -5,6 +5,8 @@
 
 package go_clipper2
 
+import "fmt"
+
 func vcWinding(pt Point64, poly Path64) int {
 	w := 0
 	n := len(poly)
@@ -81,4 +83,14 @@ func vcWindAll(pt Point64, pp Paths64) int {
 		w += vcWinding(pt, p)
 	}
 	return w
+}
+
+// vcBool runs BooleanOpPaths64 and turns a panic into a reported failure instead of aborting the run
+func vcBool(ct ClipType, subj, clip Paths64, fr FillRule) (res Paths64, panicked string) {
+	defer func() {
+		if r := recover(); r != nil {
+			panicked = fmt.Sprint("panic: ", r)
+		}
+	}()
+	return BooleanOpPaths64(ct, subj, clip, fr), ""
 }
